@@ -223,6 +223,8 @@ def confirm(res, repo_dir, scratch, env):
             # the statement equates this call with the same call on another spelling
             c["expect"] = nat.run(c["op"], c.get("dialect", "xpath"), c["mirror"], c.get("mirror_flags", ""),
                                   c.get("input", ""), c.get("replacement", ""))
+            if c.get("mirror_negated") and c["expect"] in ("true", "false"):
+                c["expect"] = "false" if c["expect"] == "true" else "true"
         bad = got.startswith("PANIC") or got == "HANG" or (c.get("expect") is not None and got != c["expect"]) \
             or (c.get("expect_not") is not None and got.startswith(c["expect_not"]))
         rec = {k: c[k] for k in ("op", "pattern", "flags", "input", "replacement", "expect", "mirror") if k in c}
@@ -324,4 +326,31 @@ def build_cases(name, vals):
         exp = ref_expand(repl, groups)
         return [{"op": "replace_all", "pattern": pat, "flags": "", "input": inp + "-" + inp, "replacement": repl,
                  "expect": ("ok:" + _hex(exp + "-" + exp)) if exp is not None else "err:InvalidReplacementString"}]
+    if name.startswith("g_class_base"):
+        ci = name.endswith("_i")
+        x = _ch(vals[0])
+        a = _ch(vals[7])
+        b = _ch(vals[8])
+        if ci and not all(in_model(c) for c in (x, a, b)):
+            return None
+        eq = (lambda p, q: p == q or model_lower(p) == model_lower(q)) if ci else (lambda p, q: p == q)
+        f = "i" if ci else ""
+        cases = [
+            {"op": "is_match", "pattern": "[" + a + "]", "flags": f, "input": x, "expect": "true" if eq(x, a) else "false"},
+            {"op": "is_match", "pattern": "[" + a + b + "]", "flags": f, "input": x,
+             "expect": "true" if (eq(x, a) or eq(x, b)) else "false"},
+        ]
+        if a <= b:
+            rng = [chr(c) for c in range(ord(a), ord(b) + 1)]
+            cases.append({"op": "is_match", "pattern": "[" + a + "-" + b + "]", "flags": f, "input": x,
+                          "expect": "true" if any(eq(x, c) for c in rng) else "false"})
+        else:
+            cases.append({"op": "compile", "pattern": "[" + a + "-" + b + "]", "flags": f, "expect": "compile-err:Syntax"})
+        return cases
+    if name == "g_class_negation_law":
+        x = _ch(vals[0])
+        g, _ = _sym_arr(vals, 7, 3)
+        # [G] and [^G] must disagree on the probe whenever both compile
+        return [{"op": "is_match", "pattern": "[^" + g + "]", "flags": "", "input": x, "mirror": "[" + g + "]",
+                 "mirror_negated": True}]
     return None
